@@ -3,11 +3,12 @@ import astq
 from rules import aes, decode, driver, portable
 
 LEVEL = 'other'
-TECHNIQUE = 'type-checking and resolved-AST rules on a second configuration (generic fallback macros) that no test compiles: lane-symmetry of the vector emulation, rounding-mode map vs spec table, dominance rules on the fenv driver, FIPS-197 decomposition of the soft AES round with the fallback lane accessors'
+TECHNIQUE = 'type-checking and resolved-AST rules on a second configuration (generic fallback macros) that no test compiles: lane-symmetry of the vector emulation, rounding-mode map vs spec table, dominance rules on the fenv driver, FIPS-197 decomposition of the soft AES round with the fallback lane accessors; bit-routing proof / counterexample search for the integer helpers'
 CLAIM = ('Decides statically, on the generic configuration (no SSE2/AES/int128 - the code architectures without a dedicated port rely on, which the suite never compiles): every unit type-checks; each two-lane fallback operation is '
          'lane-symmetric with the operator its name says and uses the SSE lane numbering; int32 -> double conversion is signed; the fenv rounding-mode map equals spec Table 4.3.1, is applied unconditionally and keeps no state; '
          'the hash driver saves / restores the fenv around everything and resets it before every program; the soft AES round with the fallback lane accessors is still the FIPS-197 round; the decoder rules hold unchanged; '
-         'rotates, mulh and smulh have their canonical two-shift / schoolbook / signed-correction forms. Numeric equality of per-lane double arithmetic and of the 32x32 multiplication with the SIMD / int128 results is not claimed.')
+         'rotates, mulh and smulh have their canonical two-shift / schoolbook / signed-correction forms. Numeric equality of per-lane double arithmetic and of the 32x32 multiplication with the SIMD / int128 results is not claimed.'
+         ' PORT-INT is sound both ways: the reference form is accepted as the textbook algorithm, rotr / rotl in any other form are decided by known-bits bit routing for all 64 counts, mulh / smulh in any other form are either refuted by a concrete operand pair (evaluated with fixed-width arithmetic, undefined shifts included) or reported as undecidable (exit 2).')
 LEVEL_NOTE = 'Trusted: clang AST with -U__SSE2__ -U__SSE__ -U__AES__ -U__SIZEOF_INT128__ -U__x86_64__ (host libstdc++ headers + two stub headers); IEEE-754 double arithmetic of the host; glibc fenv.'
 EXPLANATION = 'PORT-TYPECHECK (25 units), DRV-FPENV/DRV-RESET on K1, PORT-ROUND, PORT-LANEOPS, PORT-CVT, PORT-INT, AES-ROUND on K1, decoder rules on K1.'
 
